@@ -48,7 +48,7 @@ type Script struct {
 func genScript(rt *rapid.T, race bool) Script {
 	s := Script{Version: rapid.SampledFrom([]string{"2025-03-26", "2025-06-18", "2025-11-25", "2025-11-25"}).Draw(rt, "version")}
 	if race {
-		s.Yields = rapid.SampledFrom([]int{0, 50, 2000, 2000}).Draw(rt, "yields")
+		s.Yields = rapid.SampledFrom([]int{0, 2000, 2000, 5000}).Draw(rt, "yields")
 	}
 	n := rapid.IntRange(2, 30).Draw(rt, "n")
 	posts := 0
@@ -66,14 +66,14 @@ func genScript(rt *rapid.T, race bool) Script {
 		}
 		s.Steps = append(s.Steps, st)
 		// the interesting shape, generated on purpose: cut, write while detached, resume
-		if (st.Kind == "cut" || st.Kind == "scut") && rapid.IntRange(0, 2).Draw(rt, "macro") > 0 {
+		if (st.Kind == "cut" || st.Kind == "scut") && (race || rapid.IntRange(0, 2).Draw(rt, "macro") > 0) {
 			w, r := "note", "resume"
 			if st.Kind == "scut" {
 				w, r = "snote", "sresume"
 			}
 			for k := rapid.IntRange(1, 3).Draw(rt, "detached_writes"); k > 0; k-- {
 				// in the race variant the last detached write may overlap the resume that follows
-				s.Steps = append(s.Steps, Step{Kind: w, S: st.S, NoWait: race && k == 1 && rapid.Bool().Draw(rt, "write_races_resume")})
+				s.Steps = append(s.Steps, Step{Kind: w, S: st.S, NoWait: race && k == 1 && rapid.IntRange(0, 3).Draw(rt, "write_races_resume") > 0})
 			}
 			if st.Kind == "cut" && rapid.IntRange(0, 3).Draw(rt, "finish_detached") == 0 {
 				s.Steps = append(s.Steps, Step{Kind: "finish", S: st.S})
